@@ -11,6 +11,8 @@
 (*           (ok / timeout / invalid module), exceptions, time budget      *)
 (*  "tuple"  every consistent (created, killed, timeout, unchecked) tuple  *)
 (*           up to MaxCount                                                *)
+(*  "crit"   the prune-critical kill maps of SetCoverCritical (5 x 7 ...  *)
+(*           7 x 9), emitted like "map"                                    *)
 (*  "sim"    random big inputs (two test cases, layouts, budget, both      *)
 (*           removal modes, in-process and subprocess executor), built by  *)
 (*           small pick steps so that -simulate stays cheap                *)
@@ -27,7 +29,7 @@
 (*   sub        the mutation executor is a SubprocessTestCaseExecutor      *)
 (*   q          count tuple (mode "tuple")                                 *)
 (***************************************************************************)
-EXTENDS SetCoverOps, TLC, Json
+EXTENDS SetCoverOps, SetCoverCritical, TLC, Json
 
 CONSTANTS MaxA, MaxM, WA, WM, MaxCount, Modes
 
@@ -47,6 +49,13 @@ InitMap ==
     \E v \in [1..m -> SUBSET (1..a)] :
       b = Rec("map", <<a>>, <<0>>, m, [i \in 1..m |-> "ok"], [i \in 1..m |-> 1], Unlimited,
               <<v>>, <<{}>>, TRUE, FALSE, <<0, 0, 0, 0>>)
+
+InitCrit ==
+  \E c \in CriticalMaps :
+    LET a == Len(c)
+        m == MaxOf(UNION {c[i] : i \in DOMAIN c})
+    IN b = Rec("map", <<a>>, <<0>>, m, [i \in 1..m |-> "ok"], [i \in 1..m |-> 1], Unlimited,
+               <<[j \in 1..m |-> {i \in 1..a : j \in c[i]}]>>, <<{}>>, TRUE, FALSE, <<0, 0, 0, 0>>)
 
 InitWide ==
   \E a \in 0..WA, m \in 0..WM, mini \in BOOLEAN :
@@ -111,6 +120,7 @@ SimDone == todo = "kind" /\ Len(b.kind) = b.nM
 
 Init ==
   \/ "map" \in Modes /\ InitMap /\ todo = "done"
+  \/ "crit" \in Modes /\ InitCrit /\ todo = "done"
   \/ "wide" \in Modes /\ InitWide /\ todo = "done"
   \/ "tuple" \in Modes /\ InitTuple /\ todo = "done"
   \/ "sim" \in Modes /\ InitSim /\ todo = "n1"
@@ -120,12 +130,16 @@ Spec == Init /\ [][Next]_vars
 
 Complete == todo = "done" \/ SimDone
 \* exhaustive families are emitted compactly (ToJson of the full record dominates the run time):
-\*   map   [nA, nM, viol[1]]
-\*   wide  [nA, nM, viol[1], kind, exc[1], budget, minimize]
+\*   map   [nA, nM, masks of viol[1]]
+\*   wide  [nA, nM, masks of viol[1], kind, mask of exc[1], budget, minimize]
 \*   tuple [c, k, t, u]
-Compact == IF b.mode = "map" THEN ToJson(<<b.nA[1], b.nM, b.viol[1]>>)
+Bit(S, i) == IF i \in S THEN 2 ^ (i - 1) ELSE 0
+Mask(S) == Bit(S, 1) + Bit(S, 2) + Bit(S, 3) + Bit(S, 4) + Bit(S, 5) + Bit(S, 6) + Bit(S, 7) + Bit(S, 8)
+Masks(f) == [m \in DOMAIN f |-> Mask(f[m])]
+\* (sets are emitted as bit masks: TLC wraps long PrintT lines, which the harness cannot parse)
+Compact == IF b.mode = "map" THEN ToJson(<<b.nA[1], b.nM, Masks(b.viol[1])>>)
            ELSE IF b.mode = "wide"
-                THEN ToJson(<<b.nA[1], b.nM, b.viol[1], b.kind, b.exc[1], b.budget, b.minimize>>)
+                THEN ToJson(<<b.nA[1], b.nM, Masks(b.viol[1]), b.kind, Mask(b.exc[1]), b.budget, b.minimize>>)
                 ELSE ToJson(b.q)
 Emit == todo = "done" => PrintT(<<"HIST", Compact>>)
 =============================================================================
